@@ -40,6 +40,8 @@ def eval_call(I, st, e):
     fsrc = ast.unparse(e.func)
     h = I.ctx.call_handler(fsrc)
     if h is not None:
+        if getattr(h, "raw", False):
+            return h(I, st, None, None, e)          # the handler does not look at the arguments (e.g. super().__init__(**data))
         args, kwargs = eval_args(I, st, e)
         return h(I, st, args, kwargs, e)
     # quantifier forms: any(<genexp>) / all(<genexp>) over symbolic sequences
